@@ -393,6 +393,51 @@ def search_subcheck(prop, tier, seed, sd, prefixes):
     return rc, cov
 
 
+def big_subcheck(prop, tier, seed, sd, prefixes):
+    """The abstract index at a size where buffers, chunks and bitmap containers overflow (cmd/bigprobe):
+    segments of thousands of documents, thousands of pending deletions, Close, reader and writer reopened;
+    spec/BigIndexTrace.tla keeps the set of live ids and judges counts and sampled lookups."""
+    probe = go_build(sd, './cmd/bigprobe', 'bigprobe')
+    tf = os.path.join(sd, 'big.ndjson')
+    p = subprocess.run(['timeout', '1500', probe, '-out', tf, '-tier', tier, '-seed', str(seed)], stdout=subprocess.PIPE, stderr=subprocess.STDOUT, text=True)
+    if p.returncode != 0:
+        out = p.stdout
+        tail = out[:2000] + '\n...\n' + out[-3000:]
+        if 'github.com/blugelabs/bluge' in out and ('panic' in out or 'fatal error' in out) and 'harness:' not in out:
+            d = save_simple_replay(prop, seed, {'trace.ndjson': tf}, dict(property=prop, note='the index panicked on a large segment', log=tail))
+            log('VIOLATION property=%s replay=%s' % (prop, d))
+            log('  the real engine panicked on a large index')
+            return 1, dict(note='big probe died', log=tail[-600:], violations=1)
+        raise Inconclusive('bigprobe failed: %s' % tail)
+    res = run_trace_spec(sd, 'big', 'BigIndexTrace.tla', 'BigIndexTrace.cfg', tf, timeout=1800)
+    if not res['ok']:
+        raise Inconclusive('BigIndexTrace did not consume its trace:\n%s' % res['tail'])
+    lines = open(tf).read().splitlines()
+    mine = [v for v in res['viols'] if any(v[0].startswith(x) for x in prefixes)]
+    rc = 0
+    if mine:
+        c, line, run = mine[0]
+        j = line - 1
+        while j > 0 and '"ev":"bigreset"' not in lines[j]:
+            j -= 1
+        e = line
+        while e < len(lines) and '"ev":"bigreset"' not in lines[e]:
+            e += 1
+        d = os.path.join(OUTROOT, 'replays', prop, '%d-%s-big' % (int(time.time()), seed))
+        os.makedirs(d, exist_ok=True)
+        open(os.path.join(d, 'trace.ndjson'), 'w').write('\n'.join(lines[j:e]) + '\n')
+        json.dump(dict(property=prop, clause=c, line=line - j, kind='probe', module='BigIndexTrace.tla', cfg='BigIndexTrace.cfg', extra=[]), open(os.path.join(d, 'meta.json'), 'w'), indent=1)
+        log('VIOLATION property=%s replay=%s' % (prop, d))
+        log('  large index: %s in run %d: %s' % (c, run, lines[line - 1][:300]))
+        rc = 1
+    cov = dict(runs=sum(1 for l in lines if '"ev":"bigreset"' in l), sizes=sorted({json.loads(l)['n'] for l in lines if '"ev":"bigreset"' in l}),
+               observations=sum(1 for l in lines if '"ev":"bigobs"' in l), violations=len(mine),
+               rule='one segment of n documents, every other one deleted in one batch, every 5th..7th updated, a dense block deleted; the writer\'s reader, a reader opened '
+                    'on the directory after Close and a reopened writer (one more batch) report count and 20 sampled lookups; BigIndexTrace keeps the set of live ids')
+    log('large index: %d runs (n = %s), %d observations judged, %d violations' % (cov['runs'], cov['sizes'], cov['observations'], len(mine)))
+    return rc, cov
+
+
 def merge_sub_evidence(prop, key, cov, rc):
     """Adds the coverage of a sub-check to the evidence file written by the main check."""
     f = os.path.join(OUTROOT, 'evidence', prop + '.json')
